@@ -225,7 +225,7 @@ fn sub_over_long(input: &[u8], st: &mut Stats) -> R {
 
 fn sub_modules(input: &[u8], st: &mut Stats) -> R {
     let mut cs = Cs::new(input);
-    let mut m = gen_module(&mut cs);
+    let m = gen_module(&mut cs);
     // assembling is a pure function of the value: now and then something very large is
     // assembled on this thread first (an instruction of 20 000 operands, a module of thousands
     // of instructions)
@@ -243,7 +243,150 @@ fn sub_modules(input: &[u8], st: &mut Stats) -> R {
         }
         st.count("large_assembly_first");
     }
-    let dec = format!("{:?}", m);
+    check_module(m, st)
+}
+
+/// every instruction of the sweep (each core opcode in minimal and maximal form, every enumerant of
+/// every operand kind, every mask bit) once, with the section its layout class belongs to
+fn content_pool() -> &'static Vec<(crate::refclass::Layout, dr::Instruction)> {
+    static P: std::sync::OnceLock<Vec<(crate::refclass::Layout, dr::Instruction)>> = std::sync::OnceLock::new();
+    P.get_or_init(|| {
+        let mut v = vec![];
+        for (i, case) in crate::sweep::cases().iter().enumerate() {
+            if let Some((_, p)) = crate::sweep::build(case, i as u64 * 8 + 1) {
+                if p.body.len() < 60 {
+                    v.push((crate::refclass::layout(p.opname), p.inst()));
+                }
+            }
+        }
+        v
+    })
+}
+
+/// `content-rich`: modules whose sections hold a random half (quarter, eighth) of ALL sweep
+/// instructions at once - every capability, every decoration with every linkage type, every
+/// execution mode ... - and 2-6 functions, with and without blocks, whose result ids are drawn from
+/// the ids the annotations, names and entry points of that module refer to. Traversal order and
+/// assembly are functions of where an instruction is stored, never of what it says; with hundreds
+/// of different instructions per module, conjunctions of particular contents occur in every case.
+fn sub_content(input: &[u8], st: &mut Stats) -> R {
+    use crate::refclass::Layout as L;
+    let mut cs = Cs::new(input);
+    let pool = content_pool();
+    let keep = [2usize, 2, 4, 8][cs.below(4)];
+    let mut m = dr::Module::new();
+    if cs.below(4) != 0 {
+        let mut h = dr::ModuleHeader::new(cs.lit32());
+        h.set_version(1, cs.below(7) as u8);
+        m.header = Some(h);
+    }
+    let small_ids: u32 = [0u32, 2, 4, 8][cs.below(4)];
+    let mut referred: Vec<u32> = vec![];
+    let mut body: Vec<dr::Instruction> = vec![];
+    let mut terms: Vec<dr::Instruction> = vec![];
+    for (l, inst) in pool.iter() {
+        if cs.below(keep) != 0 {
+            continue;
+        }
+        let mut inst = inst.clone();
+        if small_ids > 0 {
+            // a tiny id space: what the instructions refer to coincides with the function ids
+            for o in inst.operands.iter_mut() {
+                if let Operand::IdRef(x) = o {
+                    *x = 1 + *x % small_ids;
+                }
+            }
+        }
+        match l {
+            L::Capability => m.capabilities.push(inst),
+            L::Extension => m.extensions.push(inst),
+            L::ExtInstImport => m.ext_inst_imports.push(inst),
+            L::MemoryModel => m.memory_model = Some(inst),
+            L::EntryPoint | L::ExecutionMode | L::DebugName | L::Annotation => {
+                for o in &inst.operands {
+                    if let Operand::IdRef(x) = o {
+                        if !referred.contains(x) {
+                            referred.push(*x);
+                        }
+                        break;
+                    }
+                }
+                match l {
+                    L::EntryPoint => m.entry_points.push(inst),
+                    L::ExecutionMode => m.execution_modes.push(inst),
+                    L::DebugName => m.debug_names.push(inst),
+                    _ => m.annotations.push(inst),
+                }
+            }
+            L::DebugStringSource => m.debug_string_source.push(inst),
+            L::ModuleProcessed => m.debug_module_processed.push(inst),
+            L::TypeConst | L::VarUndef | L::Line | L::DontCare => m.types_global_values.push(inst),
+            L::Terminator => terms.push(inst),
+            L::Block | L::BlockOrDontCare => body.push(inst),
+            L::Function | L::FunctionEnd | L::Parameter | L::Label => {}
+        }
+    }
+    if referred.is_empty() {
+        referred.push(1);
+    }
+    let nf = 2 + cs.below(5);
+    let mut next = 900_000u32;
+    for _ in 0..nf {
+        let mut f = dr::Function::new();
+        let id = if cs.below(4) != 0 { referred[cs.below(referred.len())] } else { next += 1; next };
+        let control = [spirv::FunctionControl::NONE, spirv::FunctionControl::INLINE, spirv::FunctionControl::PURE][cs.below(3)];
+        f.def = Some(crate::rs::mk_inst(spirv::Op::Function, Some(2), Some(id), vec![Operand::FunctionControl(control), Operand::IdRef(3)]));
+        for _ in 0..cs.below(3) {
+            next += 1;
+            f.parameters.push(crate::rs::mk_inst(spirv::Op::FunctionParameter, Some(2), Some(next), vec![]));
+        }
+        let nb = if cs.bool() { 0 } else { 1 + cs.below(3) };
+        for _ in 0..nb {
+            let mut b = dr::Block::new();
+            next += 1;
+            b.label = Some(crate::rs::mk_inst(spirv::Op::Label, None, Some(next), vec![]));
+            for _ in 0..cs.below(5) {
+                if !body.is_empty() {
+                    b.instructions.push(body[cs.below(body.len())].clone());
+                }
+            }
+            if !terms.is_empty() {
+                b.instructions.push(terms[cs.below(terms.len())].clone());
+            }
+            f.blocks.push(b);
+        }
+        f.end = Some(crate::rs::mk_inst(spirv::Op::FunctionEnd, None, None, vec![]));
+        m.functions.push(f);
+    }
+    st.count("content_rich_modules");
+    {
+        // generator statistics: how often does a three-way conjunction of contents occur?
+        let has_cap = m.capabilities.iter().any(|i| i.operands.first() == Some(&Operand::Capability(spirv::Capability::Linkage)));
+        let imports: Vec<u32> = m.annotations.iter().filter(|i| i.operands.iter().any(|o| *o == Operand::LinkageType(spirv::LinkageType::Import))).filter_map(|i| match i.operands.first() { Some(Operand::IdRef(x)) => Some(*x), _ => None }).collect();
+        let hit = m.functions.iter().enumerate().any(|(k, f)| k > 0 && f.blocks.is_empty() && f.def.as_ref().and_then(|d| d.result_id).map(|r| imports.contains(&r)).unwrap_or(false));
+        if has_cap && !imports.is_empty() {
+            st.count("content_conjunction_capability_and_import_decoration");
+            if hit {
+                st.count("content_conjunction_with_matching_blockless_function");
+            }
+        }
+    }
+    check_module(m, st)
+}
+
+fn check_module(m: dr::Module, st: &mut Stats) -> R {
+    let mut m = m;
+    let dec = {
+        let mut d = format!("{:?}", m);
+        if d.len() > 60_000 {
+            let mut e = 60_000;
+            while !d.is_char_boundary(e) {
+                e -= 1;
+            }
+            d.truncate(e);
+        }
+        d
+    };
     let f = |clause: &str, disc: &str, msg: String| Fail::new(clause, disc, msg).with_decoded(dec.clone());
     let globals = own_globals(&m);
     let funcs: Vec<Vec<dr::Instruction>> = m.functions.iter().map(own_function).collect();
@@ -364,12 +507,13 @@ fn sub_modules(input: &[u8], st: &mut Stats) -> R {
     Ok(())
 }
 
-pub const SUBS: &[Sub] = &[Sub { name: "modules", f: sub_modules }, Sub { name: "over-long", f: sub_over_long }];
+pub const SUBS: &[Sub] = &[Sub { name: "modules", f: sub_modules }, Sub { name: "over-long", f: sub_over_long }, Sub { name: "content-rich", f: sub_content }];
 
 pub fn run(ctx: &Ctx) {
     run_regress(ctx, SUBS);
     drive_random(ctx, &SUBS[0], ctx.n(60_000, 30_000_000), 600);
     drive_random(ctx, &SUBS[1], ctx.n(300, 60_000), 64);
+    drive_random_with(ctx, &SUBS[2], ctx.n(250, 100_000), 6_000, 400);
 }
 
 pub fn finish(ctx: &Ctx) -> i32 {
